@@ -298,7 +298,7 @@ func runC18(c *ctx) {
 			}
 		}
 	}
-	nmsg := c.pick(2500, 60000)
+	nmsg := c.pick(6000, 60000)
 	c.parallel(nmsg, func(i int, r *rng.R) {
 		g := gen.New(r, gen.Profile{MaxDepth: 1 + r.Intn(3), Vars: i%4 != 0, Budget: 150})
 		var it *ref.Item
